@@ -332,12 +332,17 @@ def _s3(ctx):
                     nm = owners[0]
             if re.match(r'^(<&?)?multiqueue::', nm) or re.match(r'^(<&?(\'a )?)?(broadcast|mpmc)::', nm):
                 inner.append(short_fn(nm).split('::')[-1] if not re.match(r'^(<&?(\'a )?)?(broadcast|mpmc)::', nm) else 'wrapper:' + short_fn(nm).split('::')[-1])
-            elif re.search(r'atomic::|(^|::)ptr::|mem::|alloc::|read_cursor::|memory::|countedindex::', nm):
+            elif re.search(r'atomic::|(^|::)ptr::|mem::|alloc::|read_cursor::|memory::|countedindex::', nm) and not re.search(r'(^|::)mem::drop(::<.*>)?$', nm):
+                # (an explicit drop(value) is the end of a scope written out, not queue logic)
                 own.append(short_fn(nm))
         ctx.add('S3', 'T-SIB', name, not own, 'wrapper has no queue logic of its own' if not own else
                 'wrapper %s touches queue internals directly: %s' % (short_fn(name), own[:3]), sub='thin')
         want = FORWARD_EXC.get(m, m)
         got = [i for i in inner if not i.startswith('wrapper:')]
+        if name in F.fresh and m not in FORWARD_EXC:
+            # a wrapper method that does not exist in the reference tree (new API): there is no sibling to agree with; it
+            # must still be thin (above), and what it reaches is judged by the rules of the inner layer
+            want = None
         if want is not None and not name.startswith('<') or (m in ('poll', 'start_send') and name.startswith('<')):
             ok = (got == [want]) or (inner == ['wrapper:' + want]) or (m in ('poll', 'start_send') and (got == [m] or inner == ['wrapper:' + m]))
             ctx.add('S3', 'T-SIB', name, ok, '%s::%s forwards to the inner %s' % (adt, m, want) if ok else
